@@ -11,7 +11,7 @@ NoLogSet == {NoLog}
 SomeLogs == {NoLog, [NoLog EXCEPT !.on = TRUE, !.print = 2], [NoLog EXCEPT !.on = TRUE, !.save = 2, !.plot = 4, !.path = TRUE]}
 
 BurnAll(nmax) == {<<"count", c>> : c \in 0..(nmax + 1)} \cup {<<"frac", f>> : f \in 0..10} \cup {<<"frac8", f>> : f \in {1, 3, 5, 7}}
-PowersAll == {<<1, 2>>, <<51, 100>>, <<13, 20>>, <<4, 5>>, <<1, 1>>, <<11, 10>>}
+PowersAll == {<<1, 2>>, <<51, 100>>, <<13, 20>>, <<4, 5>>, <<1, 1>>, <<11, 10>>, <<0, 0>>}    \* <<0, 0>>: not a number
 T0s == {<<1, 2>>, <<1, 1>>, <<3, 2>>, <<5, 1>>, <<10, 1>>}
 AnnealAll(nmax, pmax) == {<<"off">>} \cup {<<"on", sp, P, t>> : sp \in ({<<"count", c>> : c \in 0..nmax} \cup {<<"frac", f>> : f \in {0, 3, 5, 10}}),
                                                             P \in 1..pmax, t \in T0s}
